@@ -20,7 +20,10 @@ from zverif import pobj
 from zverif import templates as T
 from zverif.api import assume, check, fail, reached, untraced, choose, realize, note
 from zverif.harness.c06 import h_multi_undo as _undo_merge  # noqa: E402  (the undo path uses the same resolver)
-from zverif.harness.c14 import SegBytes, SegBytesIO, FORMATS, make_record, split, _placeholder
+from zverif.harness.c14 import SegBytes, SegBytesIO, FORMATS, make_record, split, _placeholder, gone_forget, GONE
+
+# references to a class that cannot be imported where the conflict is resolved (BadClass branch)
+FORMATS10 = FORMATS + ['oid_class_gone', 'multi_class_gone']
 from zverif.model.revstore import MRec, MTxn
 from zverif.spec import Harness, shards
 from zverif.symenv import codec
@@ -185,7 +188,7 @@ def h_refs(o: bytes, fmt_sel: int) -> None:
     """A persistent reference with symbolic oid bytes in the writer's state survives the merge unchanged
     (oid, database, weakness, format)."""
     assume(len(o) == 8)
-    fmt = FORMATS[choose(fmt_sel, len(FORMATS))]
+    fmt = FORMATS10[choose(fmt_sel, len(FORMATS10))]
     if fmt.startswith('legacy_str'):
         # the unpickler decodes str oids (library code that concretises): one ASCII representative
         assume(o == b'ASCIIoid')
@@ -200,6 +203,7 @@ def h_refs(o: bytes, fmt_sel: int) -> None:
         h.commit([(T.oid(1), r2)])
         revs = h.m.revs(T.oid(1))
         raw = _ref_record(100, fmt)
+        gone_forget()
         parts = split(raw, 1)
         CR._unresolvable.clear()
         real_io, real_data = CR.BytesIO, CR.PersistentReferenceFactory.data
@@ -238,6 +242,7 @@ def h_refs(o: bytes, fmt_sel: int) -> None:
         if isinstance(b, (list, tuple)):
             return isinstance(a, (list, tuple)) and len(a) == len(b) and all(same(x, y) for x, y in zip(a, b))
         if isinstance(b, type):
+            # (a class that could not be imported is written back as its (module, name) pair)
             return a == (b.__module__, b.__name__) or a is b
         return a == b
     check(same(got, wp), 'persistent reference changed by conflict resolution', fmt, got)
@@ -332,7 +337,7 @@ HARNESSES = [
             code=['FileStorage._transactionalUndoRecord', '_undoDataInfo', 'tryToResolveConflict'],
             quick=dict(timeout=100, shards=shards(which=['D'])), thorough=dict(timeout=100, shards=shards(which=['D']))),
     Harness('refs', h_refs,
-            decides='a persistent reference (any of 8 formats, any oid bytes) inside the writer\'s state is preserved exactly by the merge',
+            decides='a persistent reference (any of 8 formats + 2 with a class that cannot be imported, any oid bytes) inside the writer\'s state is preserved exactly by the merge',
             symbolic='oid (8 free bytes), reference format selector', bounds='one symbolic reference (used twice in the state)',
             oracle='structural equality of the persistent id', pure_python=True,
             code=['tryToResolveConflict', 'PersistentReferenceFactory.persistent_load', 'PersistentReference.__init__', 'persistent_id'],
